@@ -649,6 +649,25 @@ def eval_path(case, acc=None):
         acc.evaluations += 1
     if direct is None:
         return viol
+    # ONE kept HaighDiagram object asked for every R_1 in turn and then for R_2: the last answer must be the direct one
+    def kept_history():
+        hd = _haigh(d)
+        for R1 in R1s:
+            if R1 != R2:
+                hd.transform(frame, R1)
+        hd.transform(frame, R2)                     # (asked twice for the final target as well)
+        r = hd.transform(frame, R2)
+        return np.asarray(r["range"], dtype=float) / 2.0
+    kept = _guard("interface/HaighDiagram.transform/kept-diagram", kept_history, viol, mini())
+    if acc is not None:
+        acc.evaluations += len(R1s) + 2
+    if kept is not None:
+        bad = [i for i in range(len(cyc)) if np.isfinite(direct[0][i]) and not _isclose(kept[i], direct[0][i])]
+        if bad:
+            i = bad[0]
+            viol.append(("C12/interface/HaighDiagram.transform/kept-diagram-asked-for-other-targets-before", mini(cyc=[cyc[i]]),
+                         {"cycle(S_a,S_m)": cyc[i], "diagram": d, "asked_before": R1s, "R_2": R2, "kept_diagram": float(kept[i]),
+                          "fresh_diagram": float(direct[0][i]), "cycles_differing": len(bad)}))
     first = {}
     for R1 in R1s:
         first[R1] = direct if R1 == R2 else _guard("path/first-step", lambda: _accessor(d, frame, R1), viol, mini(R1s=[R1]))
@@ -823,6 +842,25 @@ def eval_matrix(case, acc=None):
             v2 = _judge_matrix_result(got, 2.0 * (2.0 * want), allc, None)
             if v2 is not None:
                 viol.append(("C12/interface/matrix-accessor/kept-object-after-relabel/%s" % v2[0], case, v2[1]))
+        # ONE kept accessor object asked for the same target with other mean stress sensitivities first (a steeper and a
+        # flatter diagram: the largest transformed range differs in both directions), then with this one
+        for other in ((0.6, 0.2), (0.0, 0.0), (0.15, 0.05)):
+            if list(other) == M:
+                continue
+
+            def run2(other=other):
+                kept = MS.MeanstressTransformMatrix(s.copy())
+                kept.fkm_goodman(pd.Series({"M": other[0], "M2": other[1]}), R)
+                return kept.fkm_goodman(prm, R).to_pandas()
+            got = _guard("matrix-kept-object", run2, viol, case)
+            if acc is not None:
+                acc.evaluations += 2
+            if got is not None:
+                v3 = _judge_matrix_result(got, 2.0 * want, allc, None)
+                if v3 is not None:
+                    viol.append(("C12/interface/matrix-accessor/kept-object-after-other-sensitivity/%s" % v3[0], case,
+                                 dict(v3[1], asked_before_with={"M": other[0], "M2": other[1]})))
+                    break
     return viol
 
 
